@@ -394,8 +394,10 @@ class Own(Interp):
         return r
 
     def h_call_opaque(self, fv, n, args, kwargs, env, ctx):
-        # user callables are trusted not to mutate their arguments (DESIGN.md 1.4); result is theirs
-        return FRESH
+        # user callables are trusted not to mutate their arguments (DESIGN.md 1.4).  What they return may be storage
+        # they keep (a replayed residual vector, a shared buffer): label ('U', ...) - reading is fine, writing is not
+        src = norm(n.func)[:40] if isinstance(n, ast.Call) else "callable"
+        return OV([("U", src)])
 
     def h_call_method(self, recv, attr, n, args, kwargs, env, ctx):
         if isinstance(recv, ObjV):
